@@ -22,7 +22,7 @@ type c18out struct {
 	out  string // value (S-expression) | error class | stage of the rejection
 }
 
-func (s *c18out) String() string { return s.kind + " " + s.out }
+func (s *c18out) String() string          { return s.kind + " " + s.out }
 func (s *c18out) isErr(class string) bool { return s.kind == "err" && s.out == class }
 
 type c18 struct {
@@ -75,6 +75,10 @@ func (k *c18) pair(key, lhs, rhs string, m Mode, env *Env, nontrivial bool, n in
 			k.count(key + ":one-side-rejected")
 		} else {
 			k.count(key + ":both-rejected:" + l.out)
+			if l.out == "parse" && k.c.R.Counters["c18:parse-notes"] < 6 {
+				k.count("c18:parse-notes")
+				k.c.R.Note("rejected by the parser: %s", lhs)
+			}
 		}
 		return l, r, false
 	}
@@ -607,7 +611,7 @@ func (k *c18) scopes(n int) {
 			want = res
 		case 7:
 			xs := []string{"Ints", "Strs", "Anys", "1..7", `[1, "a", nil]`, A.src, B.src}[r.Intn(7)]
-			src, want = "map("+xs+", {#})", nil // element-wise against xs itself, below
+			src = "map(" + xs + ", {#})" // element-wise against xs itself
 			k.c.R.Case(key+"|"+src+"|"+m.String(), true)
 			mo, xo := k.run(src, m, env), k.run(xs, m, env)
 			if mo.kind == "reject" || xo.kind == "reject" {
@@ -688,6 +692,9 @@ func (k *c18) inRange(n int) {
 		if i < 8 { // the forced narrow-kind shape: I8 in 0..300 with I8 = -1, optimiser off
 			env.I8, xsrc, lo, hi = -1, "I8", lit(0), lit(300)
 			m = []Mode{{Env: "struct", Optimize: false}, {Env: "none"}}[i%2]
+		} else if i < 12 { // the unsigned analogues (wrapped values against negative bounds)
+			env.U8, env.U, xsrc, lo, hi = 255, ^uint(0), []string{"U8", "U"}[i%2], lit(-3), lit(5)
+			m = []Mode{{Env: "struct", Optimize: false}, {Env: "none"}}[i/2%2]
 		}
 		if hi.val-lo.val > 5000 {
 			continue
@@ -705,7 +712,12 @@ func (k *c18) inRange(n int) {
 			lhs, rhs = "filter(Ints, {"+lhs+"})", "filter(Ints, {"+rhs+"})"
 		}
 		outside := func(a, b int) bool { return lo.val < a || lo.val > b || hi.val < a || hi.val > b }
-		narrow := (xsrc == "I8" && outside(-128, 127)) || (xsrc == "U8" && outside(0, 255)) || (xsrc == "U" && (lo.val < 0 || hi.val < 0))
+		// known deviation: the VM's equality converts the int element to the narrow signed kind of x (int8(255) == -1);
+		// unsigned x are widened to int instead, so U8 / U stay under the main key (counted, expected to hold)
+		narrow := xsrc == "I8" && outside(-128, 127)
+		if (xsrc == "U8" && outside(0, 255)) || (xsrc == "U" && (lo.val < 0 || hi.val < 0)) {
+			k.count("c18:in-range:unsigned-out-of-kind-bound:" + xsrc)
+		}
 		key := "c18:in-range"
 		l, rr, ok := k.pair(key, lhs, rhs, m, env, true, c18span(lo.val, hi.val))
 		if !ok {
@@ -749,7 +761,7 @@ func (k *c18) slices(n int) {
 			str bool
 		}
 		seqs := []seq{{"Ints", len(env.Ints), false}, {"Anys", len(env.Anys), false}, {"Strs", len(env.Strs), false}, {"(1..7)", 7, false},
-			{"[1, 2, 3]", 3, false}, {"[]", 0, false}, {`[1, "a", nil, 2.5]`, 4, false}, {"S", len(env.S), true}, {"T", len(env.T), true}, {`"hello"`, 5, true}}
+			{"[1, 2, 3]", 3, false}, {"[]", 0, false}, {`[1, "a", nil, 2.5]`, 4, false}, {"S", len(env.S), true}, {"T", len(env.T), true}, {`("hello")`, 5, true}}
 		s := seqs[r.Intn(len(seqs))]
 		ival := []int{0, 1, 2, s.n, s.n + 3, -1, -2, s.n / 2}[r.Intn(8)]
 		isrc := fmt.Sprint(ival)
@@ -811,18 +823,18 @@ func runC18(c *Ctx) {
 	r.Rule = "metamorphic identities on the real pipeline (parse, check, optimise, compile, run on a fresh VM) over collections (typed environment slices of length 0..200, literals, ranges, results of filter/map, slices; strings and a map only without a checker) x closures (generated to nesting depth 3 with logged environment calls, plus failing and non-boolean ones) x modes {struct env optimiser on/off, map env, no checker} x memory budgets {1e6, 50}: all = not any not, none = not any, one = (count == 1) (value or error class, call log, allocation total), count = len(filter) (allocation total + count), len(map) = len, filter = the satisfying elements in order (against map and the collection, in Go), nested closures see their own innermost element (expected value computed in Go, depth 2..4), x in lo..hi = (x >= lo and x <= hi), xs[:i] ++ xs[i:] = xs; every program run is also compared with the Lean reference evaluator (value, error class, call log, allocation total); non-trivial = non-empty collection and a closure that mentions # or calls a function; distinct by (identity, source, mode)"
 	scale := 1
 	if c.Thorough() {
-		scale = 12
+		scale = 15
 	}
 	k := &c18{c: c}
 	k.stream(1000000, false, func() {
-		k.builtins(2400 * scale)
-		k.scopes(300 * scale)
-		k.inRange(500 * scale)
-		k.slices(400 * scale)
+		k.builtins(1800 * scale)
+		k.scopes(240 * scale)
+		k.inRange(400 * scale)
+		k.slices(300 * scale)
 	})
 	k.stream(50, true, func() {
-		k.builtins(600 * scale)
-		k.inRange(120 * scale)
+		k.builtins(420 * scale)
+		k.inRange(90 * scale)
 	})
 	for i, id := range c18ids {
 		if r.Counters["c18:"+id+":compared"] == 0 || (i < 4 && r.Counters["c18:"+id+":both-err"] == 0) {
